@@ -40,8 +40,8 @@ static const char *const wo_name[WO_NOPS] = {
     "string_with_len(INT32_MAX+1)", "bytes(SIZE_MAX)", "write_string(NULL)", "write_raw(NULL)", "write_raw(len=SIZE_MAX)", "write_raw(len=SIZE_MAX-1: counter+len wraps)"
 };
 
-static uint8_t wexp_payload[70100];       /* patterned source bytes */
-static char wexp_zpayload[70100];         /* NUL-free text for write_string */
+static uint8_t wexp_payload[200100];       /* patterned source bytes */
+static char wexp_zpayload[200100];         /* NUL-free text for write_string */
 static uint8_t wexp_alias_bytes[4];       /* what the aliasing operation must emit */
 static uint8_t *wexp_alias_dst; static size_t wexp_alias_cap, wexp_alias_used; static bool wexp_alias_ok;   /* set by wexp_run before the real call */
 static int64_t wexp_vint; static uint64_t wexp_vdbl; static size_t wexp_vlen;     /* arguments of the parametric operations */
@@ -486,6 +486,18 @@ static void wexp_values(const wexp_cfg *cf, int w, int W, uint64_t start, const 
                 wexp_vint = (int64_t) (sgn ? (uint64_t) 0 - u : u);
                 VALUE_RUNS(WO_INT_V);
             }
+    /* sparse byte patterns far from every power of two: each of the 8 bytes either 0x00 or a non-zero fill (all 256 masks x 4 fills) */
+    {
+        static const uint8_t fills[] = { 0x01, 0x5a, 0x80, 0xff };
+        for (int f = 0; f < 4; f++)
+            for (int mask = 1; mask < 256; mask++) {
+                if (!MINE()) continue;
+                uint64_t u = 0;
+                for (int b = 0; b < 8; b++) if (mask & (1 << b)) u |= (uint64_t) fills[f] << (8 * b);
+                wexp_vint = (int64_t) u; VALUE_RUNS(WO_INT_V);
+                wexp_vdbl = u; VALUE_RUNS(WO_DBL_V);
+            }
+    }
     static const uint64_t dbl[] = { 0, 0x8000000000000000ULL, 0x3ff0000000000000ULL, 0x7ff0000000000000ULL, 0xfff8000000000001ULL, 1, 0x0102030405060708ULL, 0xffffffffffffffffULL, 0x00ff00ff00ff00ffULL, 0xff00ff00ff00ff00ULL };
     for (size_t i = 0; i < sizeof dbl / sizeof dbl[0]; i++) { if (!MINE()) continue; wexp_vdbl = dbl[i]; VALUE_RUNS(WO_DBL_V); }
     for (size_t l = 0; l <= maxlen; l++) {
@@ -494,7 +506,7 @@ static void wexp_values(const wexp_cfg *cf, int w, int W, uint64_t start, const 
         wexp_vlen = l;
         VALUE_RUNS(WO_STR_L); VALUE_RUNS(WO_BYT_L); VALUE_RUNS(WO_STRZ_L); VALUE_RUNS(WO_RAW_L);
     }
-    static const size_t longer[] = { 2047, 2048, 4608, 4863, 32767, 32768, 32769, 65535, 65536, 65537, 65794, 70000 };
+    static const size_t longer[] = { 2047, 2048, 4608, 4863, 32767, 32768, 32769, 49152, 65535, 65536, 65537, 65792, 65794, 70000, 98304, 131071, 131072, 131073, 196608 };
     for (size_t i = 0; i < sizeof longer / sizeof longer[0]; i++) {
         if (!MINE()) continue;
         wexp_vlen = longer[i];
